@@ -667,6 +667,17 @@ func formEvalOn(c *ctx, vline string, fd formDesc, ops []setOp, dup, bad bool, c
 	ps := []pathRes{
 		guard("MarshalPtr", func() ([]byte, []xml.Token, error) { b, err := xml.Marshal(d); return b, nil, err }),
 		guard("TokenReader", func() ([]byte, []xml.Token, error) { return encodeTokens(d.TokenReader()) }),
+		guard("WriteXML", func() ([]byte, []xml.Token, error) {
+			var buf strings.Builder
+			e := xml.NewEncoder(&buf)
+			if _, err := d.WriteXML(e); err != nil {
+				return nil, nil, err
+			}
+			if err := e.Flush(); err != nil {
+				return nil, nil, err
+			}
+			return []byte(buf.String()), nil, nil
+		}),
 	}
 	describe := func() string {
 		s := "form: " + fd.enc()
@@ -792,6 +803,42 @@ func formEvalOn(c *ctx, vline string, fd formDesc, ops []setOp, dup, bad bool, c
 		}
 		if !dup && repr {
 			r.Line(fmt.Sprintf("fget %s %s %s %s", jt2, fd.enc(), opsEnc, hxOrDash(id)), encVal(v)+" "+common.B(ok))
+		}
+		// the typed getters: Get followed by a type assertion
+		var typed [5]string
+		tp := guard("GetTyped", func() ([]byte, []xml.Token, error) {
+			enc := func(x interface{}, ok bool) string {
+				if !ok {
+					return "-"
+				}
+				return encVal(x)
+			}
+			s1, ok1 := d.GetString(id)
+			s2, ok2 := d.GetStrings(id)
+			b3, ok3 := d.GetBool(id)
+			j4, ok4 := d.GetJID(id)
+			j5, ok5 := d.GetJIDs(id)
+			typed = [5]string{enc(s1, ok1), enc(s2, ok2), enc(b3, ok3), enc(j4, ok4), enc(j5, ok5)}
+			return nil, nil, nil
+		})
+		if tp.panicked != "" {
+			r.Fail("no-panic", "form.Data/GetTyped/"+panicClass(tp.panicked), lines, "a typed getter panicked: "+tp.panicked+"\n"+describe())
+			continue
+		}
+		if !dup && repr {
+			r.Line(fmt.Sprintf("fgett %s %s %s %s", jt2, fd.enc(), opsEnc, hxOrDash(id)), strings.Join(typed[:], " "))
+		}
+		nOK := 0
+		for _, tv := range typed {
+			if tv != "-" {
+				nOK++
+				if !ok || tv != encVal(v) {
+					r.Fail("set-get", "form.Data/GetTyped/differs-from-Get", lines, fmt.Sprintf("Get(%q) = %s,%v but a typed getter answers %s\n%s", id, encVal(v), ok, tv, describe()))
+				}
+			}
+		}
+		if ok && v != nil && nOK != 1 {
+			r.Fail("set-get", "form.Data/GetTyped/none-answers", lines, fmt.Sprintf("Get(%q) = %s,true but %d typed getters answer\n%s", id, encVal(v), nOK, describe()))
 		}
 		if _, was := lastSet[id]; !was && !dup {
 			for _, f := range fd.fields {
@@ -987,6 +1034,13 @@ func zeroFormCase(c *ctx) {
 	r.Line(line, "-")
 	lines := []string{r.Prop + " " + line}
 	r.Case(line, true, "corpus/form.Data(zero)")
+	// a nil form (what pubsub.GetConfig returns for a reply without a form): Submit accepts it
+	if p := guard("Submit", func() ([]byte, []xml.Token, error) {
+		tr, _ := (*form.Data)(nil).Submit()
+		return encodeTokens(tr)
+	}); p.panicked != "" {
+		r.Fail("no-panic", "form.Data(nil)/Submit/"+panicClass(p.panicked), lines, "Submit on a nil *form.Data panicked: "+p.panicked)
+	}
 	for _, name := range []string{"Set", "Get", "Submit", "TokenReader", "Marshal", "Len", "Raw"} {
 		d := &form.Data{}
 		p := guard(name, func() ([]byte, []xml.Token, error) {
